@@ -86,6 +86,36 @@ def gen_mat2(case):
     return torch.randint(0, case["p"], shape, generator=g, dtype=torch.int64)
 
 
+
+def make_view(x, kind):
+    """a tensor with the values of `x` laid out as a (possibly non-contiguous) view of a larger buffer:
+    returns (view, base, snapshot of base); in-place scans must write through such views"""
+    if kind == "contig":
+        return x.clone(), None, None
+    if kind == "transposed" and x.dim() >= 2:
+        base = x.transpose(0, 1).contiguous().clone()
+        return base.transpose(0, 1), base, base.clone()
+    if kind == "strided":
+        base = torch.zeros((x.shape[0] * 2,) + tuple(x.shape[1:]), dtype=x.dtype) - 7
+        base[::2] = x
+        return base[::2], base, base.clone()
+    if kind == "block":
+        base = torch.zeros((x.shape[0] + 3,) + tuple(x.shape[1:]), dtype=x.dtype) - 7
+        base[2:-1] = x
+        return base[2:-1], base, base.clone()
+    return x.clone(), None, None
+
+
+def untouched_outside(base, before, kind):
+    if kind == "strided":
+        return torch.equal(base[1::2], before[1::2])
+    if kind == "block":
+        return torch.equal(base[:2], before[:2]) and torch.equal(base[-1:], before[-1:])
+    return True
+
+
+VIEWS = ["contig", "contig", "transposed", "strided", "block"]
+
 def seq_fold(x, dim, op, left):
     """the documented definition, computed sequentially with the same op on the real tensors"""
     outs = []
@@ -112,10 +142,13 @@ def check_mat2(ctx: Ctx, case) -> bool:
         if api == "cumops":
             y = pp().cumops(x, dim, ops)
         else:  # cumops_
-            xin = x.clone()
+            xin, base, base_before = make_view(x, case.get("view", "contig"))
             y = pp().cumops_(xin, dim, ops)
-            if y.data_ptr() != xin.data_ptr() or not torch.equal(y, xin):
-                ctx.fail(case, "in-place: cumops_ does not overwrite its input with the result")
+            if not torch.equal(y, xin):
+                ctx.fail(case, f"in-place: cumops_ does not overwrite its input with the result (input layout: {case.get('view', 'contig')})")
+                ok = False
+            if base is not None and not untouched_outside(base, base_before, case["view"]):
+                ctx.fail(case, f"in-place: cumops_ on a view changed storage outside the view ({case['view']})")
                 ok = False
     except Exception as e:
         ctx.fail(case, f"raises: cumops raises for L={L}: {type(e).__name__}: {str(e)[:120]}")
@@ -230,8 +263,12 @@ def check_lie(ctx: Ctx, case) -> bool:
     eps = common.EPS[case["dtype"]]
     tol = 64 * eps * max(L, 1)
     X = gen_lie(case)
-    before = X.tensor().clone()
     inplace = case["api"].endswith("_")
+    base = base_before = None
+    if inplace and case.get("view", "contig") != "contig":
+        v, base, base_before = make_view(X.tensor(), case["view"])
+        X = pp().LieTensor(v, ltype=X.ltype)
+    before = X.tensor().clone()
     ok = True
     try:
         Y = lie_call(case, X)
@@ -243,7 +280,10 @@ def check_lie(ctx: Ctx, case) -> bool:
         return False
     if inplace:
         if not torch.equal(X.tensor(), Y.tensor()):
-            ctx.fail(case, f"in-place: {case['api']} did not overwrite its input with the result")
+            ctx.fail(case, f"in-place: {case['api']} did not overwrite its input with the result (input layout: {case.get('view', 'contig')})")
+            ok = False
+        if base is not None and not untouched_outside(base, base_before, case["view"]):
+            ctx.fail(case, f"in-place: {case['api']} on a view changed storage outside the view ({case['view']})")
             ok = False
     elif not torch.equal(X.tensor(), before):
         ctx.fail(case, f"mutation: {case['api']} changed its input")
@@ -314,6 +354,13 @@ def run(ctx: Ctx):
     # mat2
     n = ctx.pick(200, 1500)
     cases = []
+    # deterministic corner corpus (every seed): in-place scans on every input layout, both orders, a few lengths/dims
+    for view in ("contig", "transposed", "strided", "block"):
+        for L in (1, 2, 3, 5, 8, 9):
+            for left in (False, True):
+                for pre, post in (([], []), ([2], []), ([], [3]), ([2], [2])):
+                    cases.append({"kind": "mat2", "L": L, "p": 251, "left": left, "shape_pre": pre, "shape_post": post,
+                                  "api": "cumops_", "data_seed": 77 + L, "negdim": bool(L % 2), "view": view})
     for i in range(n):
         pre = small_shape(rng, 2)
         post = small_shape(rng, 3 - len(pre) if len(pre) < 3 else 0)
@@ -321,10 +368,18 @@ def run(ctx: Ctx):
         hi = 96 if fib > 4 else (400 if ctx.quick else 1200)
         cases.append({"kind": "mat2", "L": pick_L(rng, hi), "p": rng.choice([2, 3, 7, 251, 65521]), "left": rng.random() < 0.5,
                       "shape_pre": pre, "shape_post": post, "api": rng.choice(["cumops", "cumops_"]),
-                      "data_seed": rng.randrange(1 << 30), "negdim": rng.random() < 0.3})
+                      "data_seed": rng.randrange(1 << 30), "negdim": rng.random() < 0.3, "view": rng.choice(VIEWS)})
     run_mat2(ctx, cases)
     # lie
     n = ctx.pick(160, 1200)
+    corner = []
+    for view in ("transposed", "strided", "block"):
+        for api in ("cumprod_", "m.cumprod_", "m.cummul_", "cummul_", "cumops_", "m.cumops_"):
+            for ty in GROUPS:
+                corner.append({"kind": "lie", "type": ty, "L": 5 if ty in ("SO3", "Sim3") else 4, "left": api in ("cumprod_", "cummul_"),
+                               "shape_pre": [], "shape_post": [2], "api": api, "dtype": "float64", "data_seed": 5, "negdim": False,
+                               "view": view})
+    run_lie(ctx, corner)
     apis = ["cumprod", "cummul", "m.cumprod", "m.cummul", "cumprod_", "m.cumprod_", "m.cummul_", "cumops", "m.cumops_",
             "cummul_", "cumops_", "m.cumops"]
     cases = []
@@ -334,7 +389,7 @@ def run(ctx: Ctx):
         cases.append({"kind": "lie", "type": rng.choice(list(GROUPS)), "L": pick_L(rng, 48 if ctx.quick else 130),
                       "left": rng.random() < 0.5, "shape_pre": pre, "shape_post": post, "api": rng.choice(apis),
                       "dtype": rng.choice(["float64", "float64", "float32"]), "data_seed": rng.randrange(1 << 30),
-                      "negdim": rng.random() < 0.3})
+                      "negdim": rng.random() < 0.3, "view": rng.choice(VIEWS)})
     run_lie(ctx, cases)
 
 
